@@ -147,6 +147,10 @@ def run(sim, case):
             c.stop()
         elif k == 'tempo':
             c = clocks[op[1]]
+            # (the setter is several steps: where exactly a concurrent call
+            # of another thread falls between this marker and the record
+            # below is not observable)
+            rec(ev='tempo_start', who=who, clock=op[1])
             try:
                 b = c.beats
                 c.tempo = op[2]
